@@ -360,3 +360,20 @@ def observer_chain_rules(ctx, rule_drop, rule_keep):
                           "an instruction observer never removes an instruction (only the 'empty' pseudo instruction is removed, by RemoveEmptyInstructions)")
             else:
                 ctx.ok(rule_keep, f"{c.name}.observe_instruction", "returns an instruction")
+
+
+def stream_per_run(ctx, rule: str, search_modes=("all_finds", "first_find")) -> None:
+    """the scan of an operation searches the stream of that operation's own listing: in two operations on one
+    MasterOfPuppets the second searches what the first searched (nothing carried over, nothing accumulated)"""
+    import re as _re
+    from ..matchflow import match_interp, match_scenarios
+    Im = match_interp(ctx.p)
+    for sc in match_scenarios(Im, file_types=("assembly",), return_modes=("bool",), search_modes=search_modes, only_addrs=(False,),
+                              configs=({},), repeat=2):
+        if sc.path.kind != "return":
+            continue
+        streams = [_re.sub(r"#\d+", "", Im.expr_of(e.kwargs.get("string"))) for e in sc.path.events
+                   if e.kind == "extern_call" and e.name.startswith("regex.")]
+        ok = len(streams) == 2 and streams[0] == streams[1]
+        ctx.check(ok, rule, f"MasterOfPuppets.perform_matching x2 [{sc.cfg.get('search_mode', '')}]", f"{streams}"[:220],
+                  "a repeated operation searches the same stream as the first one (records are not accumulated across runs)")
